@@ -215,8 +215,10 @@ Fixpoint parse_value (fuel : nat) (depth : Z) (s0 : bytes) : option (value * byt
       else if N.eqb c 45 || is_digit c then
         match scan_number s with
         | Some (tok, r') =>
+          (* strconv.ParseFloat reports a range error for a token whose value
+             is not a finite float64, and json.Unmarshal fails *)
           match num_parse_json tok with
-          | Some n => Some (VNum n, r')
+          | Some n => if num_finite n then Some (VNum n, r') else None
           | None => None
           end
         | None => None
